@@ -1010,7 +1010,12 @@ where
 {
     #[tracing::instrument(level = Level::TRACE, skip(self, ret))]
     async fn msg(&self, mpc_msg: MpcMsg, ret: Ret<MpcMsgError>) -> ControlFlow<()> {
-        match self.channel_senders[mpc_msg.from].send(mpc_msg.data).await {
+        let Some(sender) = self.channel_senders.get(mpc_msg.from) else {
+            // unknown sender index, or no policy has been scheduled yet
+            ret_err(ret, MpcMsgError::Unreachable);
+            return ControlFlow::Continue(());
+        };
+        match sender.send(mpc_msg.data).await {
             Ok(_) => {
                 let _ = ret.send(Ok(()));
                 ControlFlow::Continue(())
